@@ -627,7 +627,7 @@ int _vnacal_new_add_common(vnacal_new_add_arguments_t vnaa)
 	    for (int b_row = 0; b_row < b_rows; ++b_row) {
 		m_row_given[b_row] = true;
 	    }
-	    for (int b_column = 0; b_column < b_rows; ++b_column) {
+	    for (int b_column = 0; b_column < b_columns; ++b_column) {
 		m_column_given[b_column] = true;
 	    }
 	}
